@@ -67,3 +67,111 @@ def specUdLine (id : String) (ref q : List Nat) : UDLine :=
   { id := id, snps := s, ambs := specRuns 0 q, snpCount := s.length, ambCount := specAmbCount q }
 
 end Gofasta.Spec
+
+namespace Gofasta.Spec
+open Gofasta.Base Gofasta.Model
+
+/-! ### updown topranking (C08): from the sequences themselves -/
+
+structure PairTable where
+  qOnly : Nat := 0    -- query A/C/G/T differences from the reference that the target (resolved there) lacks
+  tOnly : Nat := 0
+  shared : Nat := 0
+  amb : Nat := 0      -- a difference of one sequence at a site where the other is not A/C/G/T
+  dist : Nat := 0     -- columns where both are A/C/G/T and differ
+  deriving Repr
+
+/-- one column of (reference, query, target), reference A/C/G/T -/
+def pairCol (r q t : Nat) (p : PairTable) : PairTable :=
+  let qs := isACGT q && upper q != upper r     -- query SNP
+  let ts := isACGT t && upper t != upper r     -- target SNP
+  let p1 := if qs then
+      (if !isACGT t then { p with amb := p.amb + 1 }
+       else if upper t == upper q then { p with shared := p.shared + 1 }
+       else { p with qOnly := p.qOnly + 1 })
+    else p
+  let p2 := if ts then
+      (if !isACGT q then { p1 with amb := p1.amb + 1 }
+       else if upper t == upper q then p1
+       else { p1 with tOnly := p1.tOnly + 1 })
+    else p1
+  if isACGT q && isACGT t && upper q != upper t then { p2 with dist := p2.dist + 1 } else p2
+
+def pairTable : List Nat → List Nat → List Nat → PairTable
+  | r :: rs, q :: qs, t :: ts => pairCol r q t (pairTable rs qs ts)
+  | _, _, _ => {}
+
+/-- bin: 0 same, 1 up (only the query has private differences), 2 down, 3 side -/
+def binOf (p : PairTable) : Nat :=
+  if p.qOnly = 0 ∧ p.tOnly = 0 then 0 else if p.tOnly = 0 then 1 else if p.qOnly = 0 then 2 else 3
+
+structure Cand where
+  name : String
+  bin : Nat
+  dist : Nat
+  amb : Nat
+  idx : Nat
+  deriving Repr, Inhabited
+
+def candLt (a b : Cand) : Bool :=
+  a.dist < b.dist || (a.dist == b.dist && (a.amb < b.amb || (a.amb == b.amb && a.idx < b.idx)))
+
+/-- eligible targets of a query: pass both ambiguity thresholds, not ignored -/
+def candidates (ref q : List Nat) (targets : List (String × List Nat)) (thrNum thrDen threshTarg : Nat) (ignore : List String) : List Cand :=
+  (targets.zip (List.range targets.length)).filterMap fun ((n, t), i) =>
+    let p := pairTable ref q t
+    let sum := p.qOnly + p.tOnly + p.shared + p.amb
+    let ambT := specAmbCount t
+    if ambT > threshTarg || ignore.contains n then none
+    else if sum > 0 && p.amb * thrDen > thrNum * sum then none
+    else some { name := n, bin := binOf p, dist := p.dist, amb := ambT, idx := i }
+
+def insCand (x : Cand) : List Cand → List Cand
+  | [] => [x]
+  | y :: t => if candLt x y then x :: y :: t else y :: insCand x t
+
+def sortCands (l : List Cand) : List Cand := l.foldl (fun acc x => insCand x acc) []
+
+/-- verdict on the four reported bins of one query (names and, if known, distances);
+    returns a reason on failure -/
+def checkBins (cands : List Cand) (sizes dists : List Nat) (nofill : Bool) (push : Nat)
+    (bins : List (List (String × Option Nat))) : Option String :=
+  let per := (List.range 4).map fun b => sortCands (cands.filter fun c => c.bin == b)
+  if push > 0 then
+    let ok := (List.range 4).all fun b =>
+      let cs := per.getD b []
+      let expect := if b = 0 then cands.filter (fun c => c.bin == 0) else     -- every identical target, in file order
+        let ds := ((cs.map (·.dist)).eraseDups).take push     -- cs is sorted: the k smallest occurring distances
+        cs.filter fun c => ds.contains c.dist
+      (bins.getD b []).map (·.1) == expect.map (·.name)
+    if ok then none else some "push-bins-are-not-the-k-nearest-distances"
+  else
+    let lim := (List.range 4).map fun b => (per.getD b []).filter fun c => c.dist ≤ dists.getD b 0
+    let total := if sizes.contains bigN then bigN else sizes.sum
+    let got := (List.range 4).map fun b => bins.getD b []
+    let prefixOk := (List.range 4).all fun b =>
+      (got.getD b []).map (·.1) == ((lim.getD b []).take (got.getD b []).length).map (·.name)
+    let distOk := (List.range 4).all fun b => ((got.getD b []).zip (lim.getD b [])).all fun (g, c) =>
+      match g.2 with | some d => d == c.dist | none => true
+    let n := got.map (·.length)
+    let obs := lim.map (·.length)
+    let want := (List.range 4).map fun b => min (sizes.getD b 0) (obs.getD b 0)
+    let sumOk := n.sum ≤ total
+    let nofillOk := !nofill || n == want
+    let atLeast := (List.range 4).all fun b => want.getD b 0 ≤ n.getD b 0
+    let fillOk := nofill || n.sum == min total obs.sum
+    -- evenness: among bins that still had spare candidates, extras differ by at most one, earlier bins first
+    let extras := (List.range 4).map fun b => n.getD b 0 - want.getD b 0
+    let spare := (List.range 4).filter fun b => n.getD b 0 < obs.getD b 0
+    let evenOk := nofill || spare.all fun a => (List.range 4).all fun b =>
+      extras.getD b 0 ≤ extras.getD a 0 + 1 && (!(b > a) || extras.getD b 0 ≤ extras.getD a 0 || n.getD a 0 == obs.getD a 0)
+    if !prefixOk then some "a-bin-is-not-a-prefix-of-its-ranked-candidates"
+    else if !distOk then some "reported-distance-is-not-the-number-of-differing-resolved-columns"
+    else if !sumOk then some "total-exceeds-the-requested-size"
+    else if !nofillOk then some "no-fill-bin-size-is-not-min(requested,available)"
+    else if !atLeast then some "a-bin-got-fewer-than-min(requested,available)"
+    else if !fillOk then some "fill-did-not-reach-min(total,supply)"
+    else if !evenOk then some "fill-is-not-even"
+    else none
+
+end Gofasta.Spec
